@@ -284,3 +284,75 @@ Proof. eexists. vm_compute. repeat split. Qed.
    code evaluates pair[1] - observed on the binary as `panic: index out of range [1] with length 1` in runProxy *)
 Example c12_relaunch_entry_without_eq : proxy_exports [[70;79;79]] = Err OutOfRange.
 Proof. vm_compute. reflexivity. Qed.
+
+(* ---- what an input line is to a placeholder: --ansi, --with-nth, colours on or off (strengthened, seed C12-8) ----
+   item_text ansi line = the line, under --ansi the line without its control sequences (AnsiSpec.strip_spec).  The reader
+   (core.go) is modelled with its three ansiProcessor closures and its two item constructors (without --with-nth: the
+   item's text is what ansiProcessor keeps; with --with-nth: the text is the fields SHOWN - any string, a parameter -
+   and origText holds the raw line), Item.AsString, and Terminal.replacePlaceholder's stripAnsi = t.ansi. *)
+From Fzf Require Import AnsiSpec AnsiModel ItemViewSpec ItemViewModel ItemViewProofs.
+
+(* for EVERY line, --ansi on or off, coloured theme or not, any state carried from the line before, --with-nth or not and
+   whatever text is shown for it: the string replacePlaceholder's closures work on is item_text of the line *)
+Theorem placeholder_text_is_item_text : forall ansi col carried shown index data it,
+  read_item ansi col carried shown index data = Ok it ->
+  seen_item (terminal_strip_ansi ansi col) it = Ok (index, item_text ansi data).
+Proof. exact placeholder_text_is_item_text_proof. Qed.
+Print Assumptions placeholder_text_is_item_text.
+
+(* hence the finder's expansion over lines read under any such options IS the expansion over item_text of the lines *)
+Theorem view_transparent : forall ansi col p (c : rline) rc (sel : list rline) rsel tmpl temps,
+  read_line ansi col c = Ok rc ->
+  map_res (read_line ansi col) sel = Ok rsel ->
+  view_terminal_expand ansi col p (Some rc) rsel tmpl temps =
+    terminal_expand p (Some (line_item ansi (snd c))) (map (fun l => line_item ansi (snd l)) sel) tmpl temps.
+Proof. exact view_transparent_proof. Qed.
+Print Assumptions view_transparent.
+
+(* and the round trip holds with {} standing for item_text of the cursor line and {+} for item_text of the selected lines *)
+Theorem view_expansion_roundtrip : forall ansi col p (c : rline) rc (sel : list rline) rsel tmpl temps v out files,
+  p_fish p = false ->
+  read_line ansi col c = Ok rc ->
+  map_res (read_line ansi col) sel = Ok rsel ->
+  view_terminal_expand ansi col p (Some rc) rsel tmpl temps = Ok (v, (out, files)) ->
+  let ci := line_item ansi (snd c) in
+  let si := map (fun l => line_item ansi (snd l)) sel in
+  v = true /\
+  exists outs, replace_structured (with_items p [ci] (plus_items (Some ci) si)) tmpl temps = Ok (outs, files) /\
+    out = concat (map render outs) /\
+    forall ws, template_words (map seg_of outs) = Some ws -> sh_words out = Some ws.
+Proof. exact view_expansion_roundtrip_proof. Qed.
+Print Assumptions view_expansion_roundtrip.
+
+(* {} is the text of the cursor line: under --ansi without its control sequences, whatever the theme and --with-nth *)
+Theorem braces_is_line_text : forall ansi col p (c : rline) rc (sel : list rline) rsel temps,
+  p_fish p = false -> p_force_plus p = false ->
+  read_line ansi col c = Ok rc ->
+  map_res (read_line ansi col) sel = Ok rsel ->
+  exists out, view_terminal_expand ansi col p (Some rc) rsel t_braces temps = Ok (true, (out, [])) /\
+    sh_words out = Some [item_text ansi (snd (snd c))].
+Proof. exact braces_is_line_text_proof. Qed.
+Print Assumptions braces_is_line_text.
+
+Theorem plus_is_selected_line_texts : forall ansi col p (c : rline) rc (sel : list rline) rsel temps,
+  p_fish p = false ->
+  read_line ansi col c = Ok rc ->
+  map_res (read_line ansi col) sel = Ok rsel ->
+  exists out, view_terminal_expand ansi col p (Some rc) rsel t_plus temps = Ok (true, (out, [])) /\
+    sh_words out = Some (map snd (plus_items (Some (line_item ansi (snd c))) (map (fun l => line_item ansi (snd l)) sel))).
+Proof. exact plus_is_selected_line_texts_proof. Qed.
+Print Assumptions plus_is_selected_line_texts.
+
+(* the line  ESC[31m r ESC[m ' s  (red "r", then "'s") read with --ansi, a colourless theme and --with-nth showing "X":
+   {} is read back by the shell as the one word  r's *)
+Example c12_view_nonvacuous :
+  exists rc out,
+    read_line true false ((None, Some [88]), (0, [27;91;51;49;109;114;27;91;109;39;115])) = Ok rc /\
+    view_terminal_expand true false (mkP None [10] false [] [] [] [] [] false) (Some rc) [] t_braces [] = Ok (true, (out, [])) /\
+    sh_words out = Some [[114;39;115]] /\
+    item_text true [27;91;51;49;109;114;27;91;109;39;115] = [114;39;115] /\
+    item_text false [27;91;51;49;109;114] = [27;91;51;49;109;114].
+Proof.
+  do 2 eexists. split; [vm_compute; reflexivity|]. split; [vm_compute; reflexivity|].
+  vm_compute. repeat split.
+Qed.
